@@ -117,8 +117,8 @@ theorem C20_resolve_sites_fit (f : Resolve.File) (d : Diag)
     (h : d ∈ Resolve.parseDiags f ∨ d ∈ (Resolve.resolveDiags f).diags) :
     fits (parseFmt (formatOf d.code)) d.args = true := by
   rcases h with h | h
-  · exact (Resolve.parseDiags_ok f d h).2.2
-  · obtain ⟨p, hp⟩ := Resolve.resolveDiags_ok f d h; exact hp.2.2
+  · exact (Resolve.parseDiags_ok f d h).2.2.1
+  · obtain ⟨p, hp⟩ := Resolve.resolveDiags_ok f d h; exact hp.2.2.1
 
 /-- hence the text printed for it is its format with the model's arguments — the names, counts and lines the fault classes
     are about — whatever the registers hold -/
